@@ -123,6 +123,63 @@ void body(const Prog& p)
     MC_CHECK(live_blocks() == base_blocks, "leak", "%zu arena blocks not freed", live_blocks() - base_blocks);
 }
 
+#if defined(MODE_C15)
+// Configuration edge: a trivially copyable payload (no user copy operations the harness could instrument). load / store /
+// exchange must still be one atomic step each: the race detector sees the compiler-generated member-wise copies.
+struct Pod {
+    int a, b;
+};
+template<class W>
+void pod_body(int writer_kind)
+{
+    W* w = new W(Pod{0, 0});
+    {
+        std::vector<int> ids;
+        ids.push_back(spawn([w] {
+            for (int i = 0; i < 2; i++) {
+                Pod v = w->load();
+                MC_CHECK(v.a == v.b && v.a >= 0 && v.a <= 2, "torn-read", "load() returned (%d,%d)", v.a, v.b);
+                observe((uint64_t)v.a);
+            }
+        }));
+        ids.push_back(spawn([w, writer_kind] {
+            if (writer_kind == 0) {
+                w->store(Pod{1, 1});
+                w->store(Pod{2, 2});
+            } else if (writer_kind == 1) {
+                *w = Pod{1, 1};
+                *w = Pod{2, 2};
+            } else {
+                if constexpr (std::is_same_v<W, lg::atomic_guarded<Pod>>) {
+                    Pod old = w->exchange(Pod{1, 1});
+                    MC_CHECK(old.a == 0 && old.b == 0, "exchange-result", "exchange returned (%d,%d), expected the initial value", old.a, old.b);
+                    Pod expect{1, 1};
+                    bool ok = w->compare_exchange(expect, Pod{2, 2});
+                    MC_CHECK(ok, "cas-result", "compare_exchange failed although the value equals the expected one");
+                }
+            }
+        }));
+        for (int id : ids) join(id);
+    }
+    Pod fin = w->load();
+    MC_CHECK(fin.a == 2 && fin.b == 2, "lost-write", "final value (%d,%d) after the writes 1, 2", fin.a, fin.b);
+    delete w;
+}
+inline bool operator==(const Pod& x, const Pod& y) { return x.a == y.a && x.b == y.b; }
+template<class W>
+void add_pod(const Options& o, std::vector<Item>& items, const std::string& name, int kinds)
+{
+    static const char* kn[] = {"store x2", "operator= x2", "exchange, compare_exchange"};
+    for (int k = 0; k < kinds; k++) {
+        Item it;
+        it.name = name + " [trivially copyable payload] | load x2 | " + kn[k];
+        it.body = [k] { pod_body<W>(k); };
+        it.bounds = hx::tier_bounds(o, 3, 5);
+        items.push_back(it);
+    }
+}
+#endif
+
 void add_item(const Options& o, std::vector<Item>& items, const Prog& p, int Pq, int Pt)
 {
     Item it;
@@ -176,6 +233,11 @@ void gen(const Options& o, std::vector<Item>& items, int inst, const std::vector
 void make_items(const Options& o, std::vector<Item>& items)
 {
     bool thorough = o.tier == "thorough";
+#if defined(MODE_C15)
+    add_pod<lg::atomic_guarded<Pod>>(o, items, "atomic_guarded<Pod>", 3);
+    add_pod<lg::guarded<Pod>>(o, items, "guarded<Pod>", 2);
+    add_pod<lg::ordered_guarded<Pod, std::shared_mutex>>(o, items, "ordered_guarded<Pod,shared_mutex>", 2);
+#endif
     g_insts = all_instances();
     for (int ii = 0; ii < (int)g_insts.size(); ii++) {
         const Instance& in = g_insts[ii];
